@@ -14,6 +14,10 @@ pub enum COp {
     /// drop this thread's sender handle
     DropTx,
     DropRx,
+    /// thread::park / unpark(thread index): only in the `mix` set (a task blocked in a channel
+    /// operation is unparked and parks afterwards; the token must survive)
+    Park,
+    Unpark(usize),
 }
 
 #[derive(Clone, Debug, PartialEq, Eq, Hash, PartialOrd, Ord)]
@@ -42,6 +46,7 @@ enum Tx {
 pub struct CObjs {
     tx: RefCell<Vec<Option<Tx>>>,
     rx: RefCell<Option<Receiver<u32>>>,
+    threads: RefCell<Vec<Option<shuttle::thread::Thread>>>,
 }
 
 #[derive(Clone, Debug, PartialEq, Eq, Hash)]
@@ -52,6 +57,8 @@ pub struct CM {
     rx_alive: bool,
     blocked_senders: Vec<usize>,
     waiting_rx: Option<usize>,
+    /// per thread: (token, parked, woken) — as in the sync family
+    park: Vec<(bool, bool, bool)>,
 }
 
 pub struct MpscFam;
@@ -86,12 +93,24 @@ impl Family for MpscFam {
                 rx = r;
             }
         }
-        CObjs {
+        let objs = CObjs {
             tx: RefCell::new(tx),
             rx: RefCell::new(Some(rx)),
-        }
+            threads: RefCell::new(vec![None; n]),
+        };
+        objs.threads.borrow_mut()[0] = Some(shuttle::thread::current());
+        objs
     }
     fn new_locals(_cfg: &CCfg, _t: usize) {}
+    fn on_spawn(objs: &CObjs, child: usize, th: &shuttle::thread::Thread) {
+        objs.threads.borrow_mut()[child] = Some(th.clone());
+    }
+    fn yields(op: &COp) -> Option<bool> {
+        match op {
+            COp::Park => None,
+            _ => Some(false),
+        }
+    }
 
     fn exec(o: &CObjs, _l: &mut (), t: usize, op: &COp) -> CRes {
         match op {
@@ -164,6 +183,15 @@ impl Family for MpscFam {
                 drop(h);
                 CRes::Unit
             }
+            COp::Park => {
+                shuttle::thread::park();
+                CRes::Unit
+            }
+            COp::Unpark(u) => {
+                let th = o.threads.borrow()[*u].clone().expect("unpark target not spawned yet");
+                th.unpark();
+                CRes::Unit
+            }
         }
     }
 
@@ -174,8 +202,11 @@ impl Family for MpscFam {
             _ => None,
         }
     }
-    fn objects_of(_op: &COp) -> Vec<u32> {
-        vec![0x400]
+    fn objects_of(op: &COp) -> Vec<u32> {
+        match op {
+            COp::Park | COp::Unpark(_) => vec![0x800],
+            _ => vec![0x400],
+        }
     }
     /// send -> the receive of that value; on a bounded channel of capacity c > 0 the k-th receive ->
     /// the (k+c)-th successful send (the send it makes room for)
@@ -227,6 +258,7 @@ impl Family for MpscFam {
             rx_alive: true,
             blocked_senders: vec![],
             waiting_rx: None,
+            park: vec![(false, false, false); n],
         }
     }
 
@@ -311,6 +343,41 @@ impl Family for MpscFam {
             }
             COp::DropRx => {
                 n.rx_alive = false;
+                vec![MStep::Done(n, CRes::Unit)]
+            }
+            // park / unpark exactly as in the sync family (Appendix A)
+            COp::Park => match phase {
+                0 => {
+                    if n.park[t].0 {
+                        n.park[t].0 = false;
+                        vec![MStep::Done(n, CRes::Unit)]
+                    } else {
+                        n.park[t].1 = true;
+                        n.park[t].2 = false;
+                        vec![MStep::Cont(n, 1)]
+                    }
+                }
+                _ => {
+                    if n.park[t].2 {
+                        n.park[t].1 = false;
+                        n.park[t].2 = false;
+                        vec![MStep::Done(n, CRes::Unit)]
+                    } else {
+                        n.park[t].1 = false;
+                        vec![MStep::Spurious(n, CRes::Unit)]
+                    }
+                }
+            },
+            COp::Unpark(u) => {
+                if n.park[*u].1 {
+                    if !n.park[*u].2 {
+                        n.park[*u].2 = true;
+                    } else {
+                        n.park[*u].0 = true;
+                    }
+                } else {
+                    n.park[*u].0 = true;
+                }
                 vec![MStep::Done(n, CRes::Unit)]
             }
         }
@@ -444,7 +511,36 @@ fn child_receives(cap: Option<usize>, other_senders: usize, ks: usize, kr: usize
     out
 }
 
+/// A task blocked in a channel operation is unparked, released by the channel, and parks: the token
+/// must have survived (and a second park blocks).  T1 = the one that blocks and parks.
+fn mix_programs() -> Vec<Program<MpscFam>> {
+    let mut out = Vec::new();
+    for parks in [vec![COp::Park], vec![COp::Park, COp::Park]] {
+        for cap in [None, Some(0), Some(1)] {
+            // T1 receives (blocked on the empty channel); T2 unparks it and then sends (or the reverse)
+            for t2 in [vec![COp::Unpark(1), COp::Send(7)], vec![COp::Send(7), COp::Unpark(1)], vec![COp::Unpark(1), COp::Unpark(1), COp::Send(7)], vec![COp::Unpark(1), COp::DropTx]] {
+                let mut t1 = vec![COp::Recv];
+                t1.extend(parks.clone());
+                out.push(Program::fork_join(CCfg { cap, tx_threads: vec![2] }, vec![], vec![t1, t2]));
+            }
+        }
+        for cap in [Some(0), Some(1)] {
+            // T1 sends (blocked: rendezvous / full channel); T2 unparks it and then receives
+            for t2 in [vec![COp::Unpark(1), COp::Recv, COp::Recv], vec![COp::Recv, COp::Unpark(1), COp::Recv]] {
+                let mut t1 = vec![COp::Send(1), COp::Send(2)];
+                t1.extend(parks.clone());
+                out.push(Program::fork_join(CCfg { cap, tx_threads: vec![1] }, vec![], vec![t1, t2]));
+            }
+        }
+    }
+    out.sort_by_key(|p| p.size());
+    out
+}
+
 pub fn program_set(set: &str) -> Vec<Program<MpscFam>> {
+    if set == "mix" {
+        return mix_programs();
+    }
     if let Some(base) = set.strip_suffix("-alt") {
         // the same programs with `recv` through recv_timeout (even threads) / iter().next() (odd threads)
         return program_set(base).into_iter().filter(|p| p.threads.iter().flatten().any(|o| matches!(o, GOp::Op(COp::Recv)))).collect();
